@@ -48,7 +48,7 @@ def evaluate(case):
         if c.year is not None:
             if not isinstance(c.year, int) or not (1600 <= c.year <= TODAY + 1):
                 res.v(f"year-out-of-range:{k}", f"{c!r} year={c.year!r}")
-            if not my or my[:4] != str(c.year):
+            if not my or _num4(my) != c.year:
                 res.v(f"year-mismatch:{k}", f"{c!r} year={c.year!r} metadata.year={my!r}")
             if isinstance(c.year, int) and min(abs(c.year - b) for b in (1600, TODAY + 1)) <= 1:
                 nontrivial = True
@@ -89,6 +89,36 @@ def evaluate(case):
     return res
 
 
+def _num4(text):
+    """Numeric value of the leading four digits of a textual year (any decimal digit script), else None."""
+    import unicodedata
+    try:
+        v = 0
+        for ch in text[:4]:
+            v = v * 10 + unicodedata.decimal(ch)
+        return v if len(text) >= 4 else None
+    except ValueError:
+        return None
+
+
+_DIGIT_ZEROS = [0x0660, 0x06F0, 0x0966, 0xFF10, 0x1D7CE]  # Arabic-Indic, extended Arabic-Indic, Devanagari, fullwidth, mathematical bold
+
+
+def _script_year_items():
+    """Years written partly or wholly in another decimal digit script (OCR, copy and paste): \\d matches them and int()
+    converts them, so they are years like any other and the range clause applies to their value."""
+    items = []
+    for y in (1123, 1234, 1599, 1600, 1999, TODAY + 1, TODAY + 2, 2999, 999):
+        ys = f"{y:04d}"
+        for z in _DIGIT_ZEROS:
+            for mask in (0b1111, 0b0111, 0b0001, 0b1000, 0b0110):
+                w = "".join(chr(z + int(ch)) if (mask >> (3 - i)) & 1 else ch for i, ch in enumerate(ys))
+                for t in (f"Foo v. Bar, 12 U.S. 34 ({w}).", f"Foo v. Bar ({w}) 12 Cal. 34.", f"12 F.2d 34 (4th Cir. {w}) and so on",
+                          f"77 Marq. L. Rev. 475 ({w})", f"Wis. Stat. \u00a7 655.002 ({w})", f"See 12 F. 34 [{w}];"):
+                    items.append({"text": t, "tokenizer": "ac"})
+    return items
+
+
 def _boundary_years(string):
     ys = {1599, 1600, 1601, TODAY - 1, TODAY, TODAY + 1, TODAY + 2, 1900}
     for e, _ in inv.users(string):
@@ -117,7 +147,7 @@ def _enum_items(tier):
             ]
             for t in forms:
                 items.append({"text": t, "tokenizer": "ac"})
-    return items
+    return items + _script_year_items()
 
 
 @st.composite
